@@ -9,8 +9,9 @@
     `none` = "unknown neuron activation type");
   * every operation is total: it returns the new state, the Go return values and an error class; a Go run-time
     panic (index out of range in `LoadSensors`) is the error class `panic` with the partial mutation kept;
-  * NOT modelled: MIMO control nodes (`controlNodes`, third sweep of `ActivateSteps`); the model is about
-    networks with `ctrl = []`.  `ActivationsCount` is `int32` in Go and a `Nat` here (no wrap after 2^31 activations).
+  * MIMO control nodes (`controlNodes`, third sweep of `ActivateSteps`) are NOT in this file: it is the model of
+    networks with `ctrl = []`; the modular model is Model/SolverMod.lean, which coincides with this one for
+    `ctrl = []` (refinement theorems in Proofs/SolverModFlush.lean).  `ActivationsCount` is `int32` in Go and a `Nat` here (no wrap after 2^31 activations).
 -/
 import GoNeat.Model.Net
 
@@ -30,12 +31,18 @@ inductive Err where
   | recFailed      -- fast RecursiveSteps: failed to recursively activate
   | notImpl        -- Network.Relax
   | fuel           -- model fuel exhausted (unreachable; see the fuel lemmas)
+  | modular        -- MaxActivationDepthWithCap: unsupported for modular networks (Network.RecursiveSteps)
+  | unknownModAct  -- ActivateModuleByType: unknown module activation type
+  | moduleOutLen   -- ActivateModule: number of outputs of the activator != number of output neurons
+  | recModules     -- fast RecursiveSteps: can not be used for network with defined modules
 deriving DecidableEq, Repr
 
 def Err.str : Err → String
   | .zeroSteps => "zeroSteps" | .exceeded => "exceeded" | .unknownAct => "unknownAct"
   | .sensorsSize => "sensorsSize" | .flushCheck => "flushCheck" | .panic => "panic" | .lookup => "lookup"
   | .recFailed => "recFailed" | .notImpl => "notImpl" | .fuel => "fuel"
+  | .modular => "modular" | .unknownModAct => "unknownModAct" | .moduleOutLen => "moduleOutLen"
+  | .recModules => "recModules"
 
 /-- solver state: `NState` of node `i` of `allNodes` at position `i` -/
 abbrev St (W : Type) := List (NState W)
